@@ -185,6 +185,8 @@ def _column_with_missing(dt, n, p, rng):
     for _ in range(n):
         if dt in _MISSABLE and rng.random() < p:
             out.append(_missing_marker(dt, rng))
+        elif dt == 'object' and rng.random() < 0.15:
+            out.append(rng.choice([(1, 2), ('a',), (3, 4, 5)]))  # a cell NumPy would read as a sequence wherever a cell is assigned into a slice
         else:
             out.append(_tame_value(V.element(dt, rng, missing_ok=False)))
     return out
